@@ -12,6 +12,9 @@ description = {
   "comments": [line, ...] | None,
   "devinfo": {eds_key: str | int | bool}, "devinfo_sp": {eds_key: spelling}, "baud": {rate_kbit: 0|1},
   "extra_sections": bool,                     # FileInfo, DummyUsage, object lists
+  "tail": [bool, bool, bool],                 # DeviceInfo / DeviceComissioning / Comments written AFTER the objects
+  "shuffle": int | None,                      # seed of a random order of all section groups (an INI file is unordered;
+                                              # an object's own sections stay together, parent first)
   "objects": [obj, ...] }
 obj = {"kind": "var"|"domain"|"arr"|"rec"|"compact", "index": int, "name": str, "storage": str|None,
        "sec_case": "upper"|"lower", "objtype_sp": spelling|None (None: key omitted, VAR only),
@@ -90,11 +93,13 @@ def hex4(index, case):
 
 
 def tokens(desc):
-    doc = []
+    tail = desc.get("tail") or [False, False, False]
+    head, last = [], []
+    def put(i, sec): (last if i is not None and tail[i] else head).append([sec])
     if desc.get("extra_sections"):
-        doc.append(["FileInfo", [["FileName", "generated." + desc["doc"]], ["FileVersion", "1"], ["FileRevision", "0"],
-                                 ["EDSVersion", "4.0"], ["Description", "generated by the reference writer"],
-                                 ["CreatedBy", "verif"]]])
+        put(None, ["FileInfo", [["FileName", "generated." + desc["doc"]], ["FileVersion", "1"], ["FileRevision", "0"],
+                                ["EDSVersion", "4.0"], ["Description", "generated by the reference writer"],
+                                ["CreatedBy", "verif"]]])
     if desc.get("devinfo") is not None:
         kv = []
         for k, _t in DEVINFO_KEYS:
@@ -104,27 +109,30 @@ def tokens(desc):
         for r in STD_RATES:
             if str(r) in desc.get("baud", {}):
                 kv.append(["BaudRate_%d" % r, str(desc["baud"][str(r)])])
-        doc.append(["DeviceInfo", kv])
+        put(0, ["DeviceInfo", kv])
     if desc.get("commissioning"):
         kv = []
         if desc.get("file_node_id") is not None:
             kv.append(["NodeID", spell(desc["file_node_id"], desc.get("file_node_id_sp", "dec"))])
         if desc.get("baudrate_kbit") is not None:
             kv.append(["Baudrate", str(desc["baudrate_kbit"])])
-        doc.append(["DeviceComissioning", kv])
+        put(1, ["DeviceComissioning", kv])
     if desc.get("extra_sections"):
-        doc.append(["DummyUsage", [["Dummy%04d" % i, "0"] for i in range(1, 8)]])
+        put(None, ["DummyUsage", [["Dummy%04d" % i, "0"] for i in range(1, 8)]])
     if desc.get("comments") is not None:
         kv = [["Lines", str(len(desc["comments"]))]]
         kv += [["Line%d" % (i + 1), l] for i, l in enumerate(desc["comments"])]
-        doc.append(["Comments", kv])
+        put(2, ["Comments", kv])
     if desc.get("extra_sections"):
         idx = [o["index"] for o in desc["objects"]]
         for name, sel in (("MandatoryObjects", [i for i in idx if i in (0x1000, 0x1001, 0x1018)]),
                           ("OptionalObjects", [i for i in idx if i not in (0x1000, 0x1001, 0x1018) and not 0x2000 <= i < 0x6000]),
                           ("ManufacturerObjects", [i for i in idx if 0x2000 <= i < 0x6000])):
-            doc.append([name, [["SupportedObjects", str(len(sel))]] + [[str(k + 1), "0x%04X" % i] for k, i in enumerate(sel)]])
+            put(None, [name, [["SupportedObjects", str(len(sel))]] + [[str(k + 1), "0x%04X" % i] for k, i in enumerate(sel)]])
+    groups = []
     for o in desc["objects"]:
+        doc = []
+        groups.append(doc)
         sec = hex4(o["index"], o.get("sec_case", "upper"))
         k = o["kind"]
         if k in ("var", "domain"):
@@ -152,7 +160,11 @@ def tokens(desc):
                 doc.append([sec + "Name", kv])
         else:
             raise ValueError(k)
-    return doc
+    all_groups = head + groups + last
+    if desc.get("shuffle") is not None:
+        import random
+        random.Random(desc["shuffle"]).shuffle(all_groups)
+    return [sec for g in all_groups for sec in g]
 
 
 def render(doc, style=0):
